@@ -13,5 +13,9 @@ cd $WT
 git apply $S/patch.diff || { echo "$N: PATCH DOES NOT APPLY"; git -C /repo worktree remove --force $WT; exit 1; }
 /venv/bin/python _seed/demo.py >/tmp/wt/verify_$N.mut.log 2>&1; MUT=$?
 /venv/bin/python /verif/tools/baseline.py --repo $WT >/tmp/wt/verify_$N.base.log 2>&1; BASE=$?
+# two randomly seeded stable tests (test_check_unitary / test_check_invertible) fail now and then even on the unmodified tree: retry once
+if [ $BASE -ne 0 ] && ! grep MISSING /tmp/wt/verify_$N.base.log | grep -qv "test_check_unitary\|test_check_invertible"; then
+  /venv/bin/python /verif/tools/baseline.py --repo $WT >/tmp/wt/verify_$N.base.log 2>&1; BASE=$?
+fi
 echo "$N: demo_clean_rc=$CLEAN demo_mutated_rc=$MUT baseline_rc=$BASE $(tail -1 /tmp/wt/verify_$N.base.log)"
 cd /; git -C /repo worktree remove --force $WT
